@@ -207,6 +207,12 @@ func main() {
 		if err == nil {
 			err = corr.CloseDuringBurst(res, *seed)
 		}
+		if err == nil {
+			err = corr.SkewedSubscription(res, *seed)
+		}
+		if err == nil {
+			err = corr.NotifyCancelledCtx(res, *seed)
+		}
 	case "C03":
 		res.Rule = "fault kinds {FIN, RST, blackhole} x positions {before, inside header, mid-payload, before last byte, after} x directions x frame of a workload (calls, a notification, a retry-tagged call) x calls issued right after the strike / in the reconnect window / after recovery (x second fault, thorough); oracle: a call is lost iff it has not returned although a later probe round-tripped or the client was closed; the client endpoint's hook trace is replayed through Jrpc.Corr; distinct = (fault, position, direction, frame, timing)"
 		err = corr.FaultGrid(d, res, *seed, thorough, "C03")
@@ -249,6 +255,12 @@ func main() {
 		}
 		if err == nil {
 			err = c01.RunConcurrent(res, *seed, thorough) // at-most-once per call also means: each execution with its own call's arguments
+		}
+		if err == nil {
+			err = corr.NotifyThenClose(res, *seed)
+		}
+		if err == nil {
+			err = corr.NotifyCancelledCtx(res, *seed)
 		}
 	case "C18":
 		res.Rule = "a mixed workload (queued, written and awaiting calls, a 400 kB response being read, a stream, a connection loss with calls in the reconnect window and after) with the closer fired at sampled occurrences (first, last, random) of each of 25 yield-point sites (hook gates), plus the sweep-versus-executor schedule with the closer as observer and closers of one-shot clients; distinct = (site, occurrence)"
